@@ -22,10 +22,14 @@ def sh(cmd, cwd, env=ENV, timeout=3600):
 def main():
     args = sys.argv[1:]
     seed = os.path.abspath(args.pop(0))
-    checks, tier = None, "quick"
+    checks, tier, skip_confirm = None, "quick", False
     while args:
         a = args.pop(0)
-        if a == "--checks":
+        if a == "--skip-confirm":
+            # the confirmation (demonstration passes without / fails with the patch, suite passes
+            # with it) was done when the change was imported and is recorded in its meta.json
+            skip_confirm = True
+        elif a == "--checks":
             checks = args.pop(0).split(",")
         elif a == "--all":
             checks = ["C%02d" % i for i in range(1, 21)]
@@ -45,34 +49,47 @@ def main():
         demo_dir = meta.get("demo_dir", ".")
         demo_dst = os.path.join(wt, demo_dir, "seed_demo_test.go")
         pkg = "./" + demo_dir.strip("./") if demo_dir not in (".", "", "./") else "."
+        if skip_confirm:
+            rc, out = sh(["git", "apply", os.path.join(seed, "patch.diff")], wt)
+            if rc != 0:
+                res["error"] = "patch does not apply: " + out[-300:]
+                return res
+            conf = meta.get("confirmed", {})
+            res["demo_unchanged"] = conf.get("demo_on_unchanged_tree")
+            res["suite_with_patch"] = conf.get("repository_suite_with_patch")
+            res["demo_patched"] = conf.get("demo_with_patch")
+            res["files_changed"] = conf.get("files_changed")
+            res["demo_patched_output"] = conf.get("demo_output_with_patch", "")
+            res["confirmation"] = "as recorded at import"
         # 1. demo passes on the unchanged tree
-        shutil.copy(os.path.join(seed, "seed_demo_test.go"), demo_dst)
-        rc, out = sh(["go", "test", "-vet=off", "-count=1", "-timeout", "120s", "-run", "TestSeedDemo", pkg], wt)
-        res["demo_unchanged"] = "pass" if rc == 0 else "FAIL"
-        if rc != 0:
-            res["demo_unchanged_output"] = out[-600:]
-        os.remove(demo_dst)
-        # 2. patch applies, builds, suite passes
-        rc, out = sh(["git", "apply", os.path.join(seed, "patch.diff")], wt)
-        if rc != 0:
-            res["error"] = "patch does not apply: " + out[-300:]
-            return res
-        rc, out = sh(["git", "status", "--short"], wt)
-        res["files_changed"] = [l[3:] for l in out.splitlines()]
-        rc, out = sh(["go", "build", "./..."], wt)
-        if rc != 0:
-            res["error"] = "does not build: " + out[-300:]
-            return res
-        rc, out = sh(["go", "test", "-vet=off", "-count=1", "-timeout", "300s", "./..."], wt)
-        res["suite_with_patch"] = "pass" if rc == 0 else "FAIL"
-        if rc != 0:
-            res["suite_output"] = "\n".join(l for l in out.splitlines() if l.startswith("--- FAIL") or l.startswith("FAIL"))[:400]
-        # 3. demo fails with the patch
-        shutil.copy(os.path.join(seed, "seed_demo_test.go"), demo_dst)
-        rc, out = sh(["go", "test", "-vet=off", "-count=1", "-timeout", "120s", "-run", "TestSeedDemo", pkg], wt)
-        res["demo_patched"] = "fail(as required)" if rc != 0 else "PASSES(not a demonstration)"
-        res["demo_patched_output"] = "\n".join(out.splitlines()[:12])[:900]
-        os.remove(demo_dst)
+        if not skip_confirm:
+          shutil.copy(os.path.join(seed, "seed_demo_test.go"), demo_dst)
+          rc, out = sh(["go", "test", "-vet=off", "-count=1", "-timeout", "120s", "-run", "TestSeedDemo", pkg], wt)
+          res["demo_unchanged"] = "pass" if rc == 0 else "FAIL"
+          if rc != 0:
+              res["demo_unchanged_output"] = out[-600:]
+          os.remove(demo_dst)
+          # 2. patch applies, builds, suite passes
+          rc, out = sh(["git", "apply", os.path.join(seed, "patch.diff")], wt)
+          if rc != 0:
+              res["error"] = "patch does not apply: " + out[-300:]
+              return res
+          rc, out = sh(["git", "status", "--short"], wt)
+          res["files_changed"] = [l[3:] for l in out.splitlines()]
+          rc, out = sh(["go", "build", "./..."], wt)
+          if rc != 0:
+              res["error"] = "does not build: " + out[-300:]
+              return res
+          rc, out = sh(["go", "test", "-vet=off", "-count=1", "-timeout", "300s", "./..."], wt)
+          res["suite_with_patch"] = "pass" if rc == 0 else "FAIL"
+          if rc != 0:
+              res["suite_output"] = "\n".join(l for l in out.splitlines() if l.startswith("--- FAIL") or l.startswith("FAIL"))[:400]
+          # 3. demo fails with the patch
+          shutil.copy(os.path.join(seed, "seed_demo_test.go"), demo_dst)
+          rc, out = sh(["go", "test", "-vet=off", "-count=1", "-timeout", "120s", "-run", "TestSeedDemo", pkg], wt)
+          res["demo_patched"] = "fail(as required)" if rc != 0 else "PASSES(not a demonstration)"
+          res["demo_patched_output"] = "\n".join(out.splitlines()[:12])[:900]
+          os.remove(demo_dst)
         # 4. checks
         env = dict(ENV, VERIF_REPO=wt, VERIF_EVIDENCE_DIR=wt + "/.ev", VERIF_REPLAY_DIR=wt + "/.rep")
         for cid in checks:
